@@ -174,7 +174,9 @@ def gen_case(rng, index, tier):
                                     '0001-01-01T00:00:00', '1900-02-28T23:59:59'])
             kind = 'farpast'
         elif r < 0.70:
-            text_date = rng.choice(['9999-12-31T23:59:59', '2999-01-01T00:00:00'])
+            text_date = rng.choice(['9999-12-31T23:59:59', '2999-01-01T00:00:00',
+                                    '9999-12-20T00:00:00', '9999-12-31T00:00:00',
+                                    '9999-01-01T00:00:00'])
             kind = 'future'
         elif r < 0.78:
             kind = 'missing'
@@ -182,7 +184,11 @@ def gen_case(rng, index, tier):
             text_date = rng.choice(['2020-13-01T00:00:00', '2020-01-01 00:00:00',
                                     '2020-01-01T00:00:00junk', '', 'yesterday',
                                     '2020-02-30T00:00:00', '2020-01-01T24:00:00',
-                                    '2020-01-01T00:00', '20200101T000000'])
+                                    '2020-01-01T00:00', '20200101T000000',
+                                    '20010203040506-01-01T00:00:00',
+                                    '2001-01-01T00:00:99999999999',
+                                    '2147483648-01-01T00:00:00',
+                                    '0000-00-00T00:00:00', '2001-01-01T00:00:00.5'])
             kind = 'malformed'
         elif r < 0.93:
             kind = 'dup-valid-then-invalid'
